@@ -150,3 +150,35 @@ def extra_assignable_table():
                 except Exception:
                     pass
     return sorted(pairs)
+
+
+def digest(t, memo):
+    """structural digest of a type (by value), memoised per call site in `memo` (id -> digest);
+    the memo must be discarded whenever objects may have been mutated"""
+    if t is None:
+        return 0
+    m = memo.get(id(t))
+    if m is not None and m[0] is t:
+        return m[1]
+    k = kind(t)
+    D = lambda ts: tuple(digest(x, memo) for x in list(ts))  # noqa: E731
+    if k == "b":
+        d = ("b", str(type(t)), t.get_name(), bool(getattr(t, "primitive", False)), D(t.supertypes))
+    elif k == "s":
+        d = ("s", str(t.name), D(t.supertypes))
+    elif k == "v":
+        d = ("v", str(t.name), VAR(t.variance), digest(t.bound, memo))
+    elif k == "w":
+        d = ("w", VAR(t.variance), digest(t.bound, memo))
+    elif k == "c":
+        d = ("c", str(type(t)), str(t.name), D(t.type_parameters), D(t.supertypes))
+    elif k == "p":
+        d = ("p", str(t.name), digest(t.t_constructor, memo), D(t.type_args), D(t.supertypes),
+             bool(getattr(t, "_can_infer_type_args", False)))
+    elif k == "n":
+        d = ("n",)
+    else:
+        d = ("x", str(type(t)))
+    h = hash(d)
+    memo[id(t)] = (t, h)
+    return h
